@@ -238,6 +238,12 @@ pub fn run_scn(s: &Scn) -> Result<(Vec<Vec<u8>>, u64), String> {
         }
         k => return Err(format!("unknown scenario kind {}", k)),
     }
+    if s.ip_mtu < 1500 {
+        // IPv4 fragments leave one per egress pass: flush the fragmenter
+        for _ in 0..6 {
+            pl!();
+        }
+    }
     Ok((frames, polls))
 }
 
@@ -398,10 +404,11 @@ pub fn check_frames(s: &Scn, frames: &[Vec<u8>], st: &mut BStats, verbose: bool)
             fix_ip4_hdr(&mut whole);
             let info = classify(&whole);
             let tx_on = Caps::index_for(4, info.proto).map(|i| s.caps.tx(i)).unwrap_or(false);
+            let pre = if tx_on { "" } else { "txoff " };
             match info.l4 {
-                Ck::Valid => st.inc(&format!("reassembled {}: valid", info.proto_name())),
+                Ck::Valid => st.inc(&format!("{}reassembled {}: valid", pre, info.proto_name())),
                 _ => {
-                    st.inc(&format!("reassembled {}: invalid", info.proto_name()));
+                    st.inc(&format!("{}reassembled {}: invalid", pre, info.proto_name()));
                     if tx_on {
                         let sig = format!("C08/emitted-invalid/{}/fragmented", info.proto_name());
                         st.viols.push((sig, format!("reassembled datagram fails upper-layer checksum: {}", hex(&whole)), s.to_json()));
@@ -507,6 +514,16 @@ pub fn run(rep: &mut Report, tier: Tier) {
             list.push(Scn { kind: "udp-frag".into(), ver: Ver::V4, size, pattern: 2, medium, caps: Caps::DEFAULT, ip_mtu: 576, burst: 0, tcp_rx: BUF });
         }
     }
+    // IPv4 datagrams that need 2 and 3+ fragments: UDP, echo reply and echo request from an icmp socket
+    for medium in [Medium::Ip, Medium::Ethernet] {
+        for kind in ["udp-frag", "echo", "icmp-send"] {
+            for size in [549usize, 600, 1000, 1104, 1105, 1400, 1464] {
+                for pattern in [1u8, 2] {
+                    list.push(Scn { kind: kind.into(), ver: Ver::V4, size, pattern, medium, caps: Caps::DEFAULT, ip_mtu: 576, burst: 0, tcp_rx: BUF });
+                }
+            }
+        }
+    }
     // DeviceCapabilities::max_burst_size dimension (the TCP window clamp in Packet::emit_payload):
     // {Some(1), Some(4)} x receive buffer {4096, 16384} x MTU {1500, 576}; None is the suite above.
     // With burst*(mtu-hdrs) below the free receive buffer the clamp is active, otherwise not; both occur.
@@ -556,6 +573,24 @@ pub fn run(rep: &mut Report, tier: Tier) {
             }
         }
     }
+    // fragmentation under EVERY capability setting (including the default one): the header of every
+    // fragment must verify whenever OUR table says ipv4 tx checksumming is on; the reassembled
+    // upper-layer checksum whenever the transport's tx checksumming is on
+    for c in 0..1024u32 {
+        let caps = Caps([(c & 3) as u8, ((c >> 2) & 3) as u8, ((c >> 4) & 3) as u8, ((c >> 6) & 3) as u8, ((c >> 8) & 3) as u8]);
+        // udp and icmpv4 capabilities matter here; tcp/icmpv6 are irrelevant for these kinds: keep
+        // the full ipv4 x udp x icmpv4 product and only the Both value of the other two, plus all-equal settings
+        let others_default = caps.0[TCP] == 0 && caps.0[ICMPV6] == 0;
+        let all_equal = caps.0.iter().all(|&x| x == caps.0[0]);
+        if !(others_default || all_equal) {
+            continue;
+        }
+        for kind in ["udp-frag", "echo", "icmp-send"] {
+            for size in [600usize, 1400] {
+                caps_list.push(Scn { kind: kind.into(), ver: Ver::V4, size, pattern: 2, medium: Medium::Ip, caps, ip_mtu: 576, burst: 0, tcp_rx: BUF });
+            }
+        }
+    }
     let st_caps = run_list(&caps_list);
 
     for st in [&st_default, &st_caps] {
@@ -574,7 +609,7 @@ pub fn run(rep: &mut Report, tier: Tier) {
             "default_caps": {"scenarios": st_default.scenarios, "polls": st_default.polls, "frames_verified": st_default.frames, "per_class": st_default.counts,
                 "domain": "media {ip, ethernet} x {v4, v6} x kinds {boot, mcast-join, echo, echo-sock, udp-closed, proto-unk, udp-send(+crafted zero-sum), udp-send-unresolved(eth), icmp-send, tcp-client, tcp-server, tcp-closed, udp-frag(mtu 576)}; tcp kinds additionally with DeviceCapabilities::max_burst_size in {1,4} x tcp rx buffer {4096,16384} x ip mtu {1500,576} (window clamp active and inactive); datagram kinds: every payload size 0..=MTU-hdr (counting) + boundary sizes (zeros, 0xFF; thorough: every size); tcp: sizes 0..=80, boundaries, MSS±, 2*MSS± (thorough: every size up to MSS)"},
             "all_caps_settings": {"settings": n_caps, "scenarios": st_caps.scenarios, "polls": st_caps.polls, "frames_verified": st_caps.frames, "per_class": st_caps.counts,
-                "note": "4^5-1 non-default ChecksumCapabilities settings on medium ip; frames of protocols whose tx checksumming is off are counted under 'txoff', never asserted"},
+                "note": "4^5-1 non-default ChecksumCapabilities settings on medium ip; plus IPv4 fragmentation (udp, echo reply, icmp-socket echo request; 600 and 1400 payload octets on ip mtu 576 = 2 and 3 fragments) under every ipv4 x udp x icmpv4 capability value (4^3 settings + the all-equal ones), every fragment header asserted when ipv4 tx is on per the harness's own table; frames of protocols whose tx checksumming is off are counted under 'txoff', never asserted"},
         }),
     );
     // samples: one emitted frame of a few kinds
